@@ -62,6 +62,7 @@ var impls = map[string]func(string) string{
 	"sftp.store":      implSftpStore,
 	"sftp.get":        implSftpGet,
 	"sftp.has":        implSftpHas,
+	"sshpool.accept":  implSshPoolAccept,
 }
 
 type replayFile struct {
